@@ -12,6 +12,11 @@ RULE = ('each evaluation is one closed program of the core calculus (define/let/
 
 PROBE = "(list (if (defined? 'a) a 'undef) (if (defined? 'b) b 'undef) (if (defined? 'c) c 'undef))"
 
+# known finding: a name defined at run time by (eval '(define x ..)) inside a let/fn scope is invisible to the static
+# resolver, so a later read of x in that scope, already resolved to an outer binding of x, does not see it
+KNOWN_EVAL_DEFINE = "(do (define c 4) (let ([a (eval '(define c 3))]) c))"
+EVAL_DEFINE_MARK = "(eval '(define"
+
 
 def ref_run(prog):
     r = cc.Ref()
@@ -39,7 +44,17 @@ def run(tier, seed, replay=None):
         text = cc.render(prog)
         exp = ref_run(prog)
         mode = 'evalstr' if c % 3 else 'barestr'
-        cases.append({'id': c, 'cmds': [[mode, '111', text], [mode, '111', PROBE]], 'text': text, 'exp': exp, 'kind': mode})
+        cases.append({'id': len(cases), 'cmds': [[mode, '111', text], [mode, '111', PROBE]], 'text': text, 'exp': exp, 'kind': mode})
+        if EVAL_DEFINE_MARK in text:
+            # the same program with every name looked up dynamically: used to recognise the known finding
+            cases[-1]['sib'] = len(cases)
+            cases.append({'id': len(cases), 'cmds': [[mode, '110', text], [mode, '110', PROBE]], 'text': text, 'exp': exp,
+                          'kind': 'dynamic-sibling', 'sibling': True})
+    prog0 = ('do', ('define', 'c', 4), ('let', [('a', ('eval', ('quote', [cc.Sym('define'), cc.Sym('c'), 3])))], [cc.Sym('c')]))
+    cases.append({'id': len(cases), 'cmds': [['evalstr', '111', KNOWN_EVAL_DEFINE], ['evalstr', '111', PROBE]], 'text': KNOWN_EVAL_DEFINE,
+                  'exp': ('ok I3', '', None), 'kind': 'known-probe', 'sib': len(cases) + 1})
+    cases.append({'id': len(cases), 'cmds': [['evalstr', '110', KNOWN_EVAL_DEFINE], ['evalstr', '110', PROBE]], 'text': KNOWN_EVAL_DEFINE,
+                  'exp': ('ok I3', '', None), 'kind': 'dynamic-sibling', 'sibling': True})
     # enumerated small programs, batched (they are total: no errors possible)
     small = []
     for size in range(1, 6):
@@ -59,12 +74,30 @@ def run(tier, seed, replay=None):
         cases.append({'id': len(cases), 'cmds': [['evalstr', '111', text]], 'text': text,
                       'exp': ('ok ( ' + ' '.join(exps) + ' )', '', None), 'kind': 'enum', 'n': len(chunk)})
 
+    listed = [k for k in lib.load_known() if k.get('property') == PID and k.get('status') == 'open'
+              and k.get('input') == KNOWN_EVAL_DEFINE]
+    by_id = {}
+    known_seen = []
+
     def oracle(case, impl):
+        why = oracle0(case, impl)
+        if why and not case.get('sibling') and 'sib' in case and EVAL_DEFINE_MARK in case['text']:
+            sib_case, sib_impl = by_id.get(case['sib'], (None, None))
+            if sib_impl is not None and not sib_impl.get('crash') and oracle0(sib_case, sib_impl) is None and listed:
+                # with dynamic lookup the program meets the reference: this is the listed finding, not a new violation
+                known_seen.append(case['text'][:200])
+                return None
+        return why
+
+    def oracle0(case, impl):
         res, out, probe = case['exp']
         if res is None:
             return None
         got = (impl.get('results') or [''])
         r0 = got[0]
+        if r0.startswith('err REC') or r0.startswith('err TIMEOUT'):
+            rep.skip('impl-' + r0.split()[1])     # Python's recursion limit / the harness time limit: not a verdict
+            return None
         if res == 'err':
             if r0.startswith('ok'):
                 return f'program must raise (unbound/undefined/redefinition/arity/type) but yielded {r0}: {case["text"][:300]}'
@@ -81,7 +114,12 @@ def run(tier, seed, replay=None):
         return None
 
     results = lib.run_sessions(cases)
+    for case, impl, mout, cmp in results:
+        by_id[case['id']] = (case, impl)
     lib.std_checks(rep, results, oracle)
+    if known_seen:
+        rep.known_hits.append(listed[0]['what'])
+        rep.extra['known_eval_define_programs'] = len(known_seen)
     for c in cases:
         rep.count(c['kind'])
         rep.count('ref=' + ('skip' if c['exp'][0] is None else 'err' if c['exp'][0] == 'err' else 'value'))
